@@ -36,6 +36,7 @@ class SockWorld:
         self.conn_events = []  # (t, connected)
         self.raise_in_msg_sub = False
         self.raise_in_conn_sub = False
+        self.on_connect_hooks = []
         self.sock.subscribe_on_message_received(self._on_msg)
         self.sock.subscribe_on_connection_changed(self._on_conn)
 
@@ -49,6 +50,10 @@ class SockWorld:
     async def _on_conn(self, *, connected):
         self.conn_events.append((self.loop.time(), connected))
         self.log.add("SUB.conn", connected=connected)
+        if connected and self.on_connect_hooks:
+            hooks, self.on_connect_hooks = self.on_connect_hooks, []
+            for h in hooks:
+                await h()
         if self.raise_in_conn_sub:
             raise RuntimeError("connection subscriber fails")
 
